@@ -150,6 +150,13 @@ def k2_search(ctx, pid: str):
                 ok = o.kind == "raise" and o.value.name == "TypeError"
                 return [("K2.type-guard", name, ok, "a target that is neither Seq nor SeqRecord must be refused with TypeError, got %r" % (o,))]
             out = []
+            gated = [t for t, v in o.path.choices if t.startswith("bool ") and " upper" in t and ("in(" in t or "find(" in t or "startswith(" in t)]
+            if gated:
+                # a literal test on the case-normalised text decides whether / where the pattern is tried: whether that
+                # agrees with the pattern is a question about the pattern's language (not decided; on raw text the test
+                # is case-sensitive and the obligations below apply)
+                raise AnalysisError("%s: the scan is gated by a literal test on the case-normalised text (%s); whether skipping on its "
+                                    "answer agrees with the compiled pattern is not decided" % (fi.where(), gated[0][:100]))
             calls = [e for e in o.path.effects if e[0] == "regex.match"]
             loops = [e for e in o.path.effects if e[0] == "loop" and e[1] == "range"]
             lo_spec = POS if explicit else ZERO
@@ -234,30 +241,94 @@ def k11_contains(ctx, pid: str):
             long_query = I.ge0(Q - N - 1)
         if long_query:
             return [("K11.membership", name, v is False, "a query longer than the record is never contained: got %r" % (v,))]
-        # |q| <= n : must be 'q occurs in w.w[:m]' with m >= |q| - 1
-        ok = False
-        det = "for |q| <= n membership must be occurrence in the doubled word (w.w[:m], m >= |q|-1): got %r" % (v,)
-        if isinstance(v, ABoolTerm) and v.op == "in" and isinstance(v.args[1], ASeq):
-            item, text = v.args
+        # |q| <= n : the answer must be "q is one of the n windows of length |q| of the circle".  The code may ask several
+        # texts T1, T2, ... (`q in T1 or q in T2`, or one after the other): every text must be a stretch of the circle
+        # (each of its windows is a window of the circle), and the windows of the texts together must be all n of them.
+        if I.path.cons.decide_ge0(-Q) is True:
+            ok = v is True or isinstance(v, ABoolTerm)
+            return [("K11.membership", name, ok, "the empty query is contained: got %r" % (v,))]
+
+        def in_terms(t):
+            if isinstance(t, ABoolTerm) and t.op == "in" and isinstance(t.args[1], ASeq):
+                return [t]
+            if isinstance(t, ABoolTerm) and t.op == "or":
+                out_ = []
+                for a in t.args:
+                    got = in_terms(a)
+                    if got is None:
+                        return None
+                    out_ += got
+                return out_
+            return None
+
+        symbolic = in_terms(v) if isinstance(v, ABoolTerm) else []
+        det = "for |q| <= n membership must be occurrence in the doubled word (w.w[:m], m >= |q|-1), i.e. in one of the n windows of the circle: got %r" % (v,)
+        if symbolic is None or not (isinstance(v, ABoolTerm) or v is True or v is False):
+            return [("K11.membership", name, False, det)]
+        decided = [(e[1], e[2]) for e in o.path.effects if e[0] == "bool" and in_terms(e[1])]
+        if any(isinstance(e[1], ABoolTerm) and e[1].op == "not" and in_terms(e[1].args[0]) for e in o.path.effects if e[0] == "bool"):
+            decided += [(e[1].args[0], not e[2]) for e in o.path.effects if e[0] == "bool" and isinstance(e[1], ABoolTerm) and e[1].op == "not" and in_terms(e[1].args[0])]
+        out = []
+
+        def stretch(t):
+            """(start, length) when the text is a stretch of the circle read clockwise from `start`, else None"""
+            item, text = t.args
+            if not (isinstance(item, ASeq) and I.same_pieces(item.pieces, [Piece("Q", ZERO, Q)])):
+                return None
             ps = I.canon(text.pieces)
-            okq = isinstance(item, ASeq) and I.same_pieces(item.pieces, [Piece("Q", ZERO, Q)])
-            if I.path.cons.decide_ge0(-Q) is True:
-                # the empty query occurs in any text
-                okt = True
-            else:
-                okt = (len(ps) >= 1 and ps[0].base == "W" and I.aff_eq(ps[0].lo, ZERO) and I.aff_eq(ps[0].hi, N)
-                       and ((len(ps) == 2 and ps[1].base == "W" and I.aff_eq(ps[1].lo, ZERO)
-                             and I.path.cons.decide_ge0(ps[1].hi - (Q - 1)) is True)
-                            or (len(ps) == 1 and I.path.cons.decide_ge0(-(Q - 1)) is True)))
-            ok = okq and okt
-            if ok and text.kind != "str":
-                return [("K11.membership", name, ok, det),
-                        ("K11.total", name, False,
-                         "the query is looked up with the `in` of a Bio.Seq (%s), not of the text: that operator encodes a str query as ASCII "
-                         "and raises UnicodeEncodeError for any other string instead of answering False (T3)" % text.kind)]
-        elif v is True and I.path.cons.decide_ge0(-Q) is True:
-            ok = True
-        return [("K11.membership", name, ok, det)]
+            if not ps or any(p_.base != "W" for p_ in ps):
+                return None
+            for a, b in zip(ps, ps[1:]):
+                wraps = I.aff_eq(a.hi, N) and I.aff_eq(b.lo, ZERO)
+                if not (wraps or I.aff_eq(a.hi, b.lo)):
+                    return None
+            length = ZERO
+            for p_ in ps:
+                length = length + (p_.hi - p_.lo)
+            return ps[0].lo, length
+
+        texts = [t for t, _res in decided] + list(symbolic)
+        kinds = {t.args[1].kind for t in texts}
+        spans = []
+        for t in texts:
+            st = stretch(t)
+            if st is None:
+                return [("K11.membership", name, False, det + " (the text %r is not a stretch of the circle)" % (t.args[1],))]
+            spans.append(st)
+        if v is True:
+            # answered by a text that is a stretch of the circle: sound
+            return [("K11.membership", name, any(res for _t, res in decided), det)]
+        # no (decided) text contains q on this path, or the answer is left to the symbolic ones: all windows must have been asked
+        ivs = []
+        for a, length in spans:
+            # window starts a .. a + length - q ; empty when the text is shorter than the query
+            if I.path.cons.decide_ge0(length - Q) is True:
+                ivs.append((a, a + length - Q))
+        covered = False
+        import itertools
+        for order in itertools.permutations(ivs):
+            if not order:
+                continue
+            ok_ = I.aff_eq(order[0][0], ZERO) or I.aff_eq(order[0][0], N)
+            reach = order[0][1] if I.aff_eq(order[0][0], ZERO) else order[0][1] - N
+            for a, b in order[1:]:
+                for shift in (ZERO, N):
+                    if I.path.cons.decide_ge0(reach + 1 - (a - shift)) is True and I.path.cons.decide_ge0((a - shift)) is True:
+                        if I.path.cons.decide_ge0((b - shift) - reach) is True:
+                            reach = b - shift
+                        break
+                else:
+                    ok_ = False
+            if ok_ and I.path.cons.decide_ge0(reach - (N - 1)) is True:
+                covered = True
+                break
+        out.append(("K11.membership", name, covered,
+                    det + " (window starts asked: %s of the n)" % ", ".join("[%r, %r]" % iv for iv in ivs)))
+        if covered and kinds - {"str"}:
+            out.append(("K11.total", name, False,
+                        "the query is looked up with the `in` of a Bio.Seq (%s), not of the text: that operator encodes a str query as ASCII "
+                        "and raises UnicodeEncodeError for any other string instead of answering False (T3)" % ", ".join(sorted(kinds - {"str"}))))
+        return out
 
     emit(ctx, run_paths(ctx, fi, make_args, [N - 1, Q], post=post), fi.where())
     ctx.report.floor("K11.membership", 2)
@@ -284,6 +355,9 @@ def k5_features(ctx, pid: str):
             parts.generic, parts.min_len = src.generic, src.min_len
             return AStruct("Location", start=Aff.of(l.fields["start"]) + off, end=Aff.of(l.fields["end"]) + off,
                            parts_value=parts, shifted_by=off)
+        if isinstance(op, ast.Add) and isinstance(l, AStruct) and l.kind == "FeatureLocation" and isinstance(rr, (Aff, int)):
+            # Bio.SeqFeature (T3): a part plus an integer is the part moved by it, everything else kept
+            return _shift_part(l, Aff.of(rr))
         return NotImplemented
 
     def _shift_part(part, off):
@@ -452,7 +526,21 @@ def k13_citations(ctx, pid: str):
     hooks = {"getattr": getattr_hook, "lib_call": lib_hook}
 
     def self_obj():
-        return AObj(mgr, {})
+        # containers the constructor hangs on the manager live as long as the manager: when a method runs, what an
+        # earlier call (for another record) left in them is unknown
+        attrs = {}
+        owner, init = p.class_attr_def(mgr, "__init__")
+        if isinstance(init, FuncInfo) and init.node.args.args:
+            me = init.node.args.args[0].arg
+            for n in ast.walk(init.node):
+                if isinstance(n, ast.Assign) and len(n.targets) == 1 and isinstance(n.targets[0], ast.Attribute) \
+                        and isinstance(n.targets[0].value, ast.Name) and n.targets[0].value.id == me:
+                    v = n.value
+                    fresh_map = (isinstance(v, ast.Dict) and not v.keys) or (
+                        isinstance(v, ast.Call) and not v.args and not v.keywords and ast.unparse(v.func) in ("dict", "OrderedDict", "collections.OrderedDict"))
+                    if fresh_map:
+                        attrs[n.targets[0].attr] = AMap("carried-over:%s.%s" % (me, n.targets[0].attr))
+        return AObj(mgr, attrs)
 
     # -- reader ---------------------------------------------------------
     def post_deref(I, o):
@@ -484,6 +572,13 @@ def k13_citations(ctx, pid: str):
         return out
 
     def args_for(f, I):
+        if f.owner is not None and f.kind == "method" and f.owner is not mgr and not p.is_subclass(mgr, f.owner):
+            # a method of a small class wrapped around the record (table = _CitationTable(record); table.resolve())
+            rec = make_record(I)
+            obj = Frame(I, None, {}, module=f.module).instantiate(f.owner, [rec], {}, None)
+            return (obj,), {}
+        if f.owner is not None and f.kind == "classmethod":
+            return (f.owner, make_record(I)), {}
         return ((self_obj(), make_record(I)) if f.owner is not None and f.kind == "method" else (make_record(I),)), {}
 
     outs = run_paths(ctx, deref, lambda I: args_for(deref, I), [N - 1], hooks=hooks, post=post_deref)
@@ -530,8 +625,22 @@ def k13_citations(ctx, pid: str):
             okapp = (len(appends) == 1 and appends[0][3] and appends[0][3][0] == CIT) if absent else not appends
             out.append(("K13.append-once", name, okapp,
                         "a cited reference is appended to the product's list exactly when it is not there yet: absent=%s appends=%r" % (absent, appends)))
-        else:
+        elif appends:
             out.append(("K13.append-once", name, False, "references are appended without asking whether they are present"))
+        memo_hits = [t for t, v in o.path.choices if t.startswith(("get ", "getitem ", "haskey ")) and "id()(cit)" in t and v in ("hit", True)]
+        carried = [e for e in o.path.effects if e[0] in ("map-get", "map-getitem") and str(e[1]).startswith("carried-over:")]
+        # ... unless the key names the list as well as the reference (one entry per (list, reference): what the entry holds
+        # was computed for this very list, which only grows, by the path that stores it -- judged there)
+        carried = [e for e in carried if not ("id()(" in repr(e[2]) and "references" in repr(e[2]) and "annotations(rec)" in repr(e[2]))]
+        if memo_hits and carried:
+            return out + [("K13.writer", name, False,
+                           "the position written for a citation is served from `%s`, a table created with the manager and kept between calls: "
+                           "it holds the position the reference had in the list of the record numbered before, not in this record's list"
+                           % carried[0][1].split(":", 1)[1])]
+        if memo_hits and not asked and not appends:
+            # the position comes out of a table filled earlier in the same call (a memo keyed by the reference's identity):
+            # what it holds is what the first encounter computed -- the path that computes it is judged, this one adds nothing
+            return out
         ok = False
         det = "the citation must be written back as a bracketed 1-based index of the reference in the list: stored %r" % (val,)
         if isinstance(val, AFormat) and len(val.args) == 1 and isinstance(val.args[0], Aff) and not val.kwargs:
@@ -696,8 +805,14 @@ def k15_map(ctx, pid: str):
 
     hooks["map_value"] = map_value
 
+    built_by_ctor = fi.name == "__init__" and fi.owner is not None and fi.owner is not mgr
+
     def make_args(I):
         mods = ACollection("modules", lambda: _entity(mod_cls, "m"))
+        if built_by_ctor:
+            # the map is built by the constructor of a small index class: _ModuleIndex(self.modules)
+            build_manager(I, mgr, _entity(vec_cls, "V"), mods)  # (the vector check still guards every assembly)
+            return (AObj(fi.owner, {}, name="index"), mods), {}
         return (build_manager(I, mgr, _entity(vec_cls, "V"), mods),), {}
 
     START_M = Term("start", Term("m"))
@@ -708,6 +823,12 @@ def k15_map(ctx, pid: str):
         ch = {}
         for t, v in o.path.choices:
             ch.setdefault(t.split(" ")[0], v)
+        bases = sorted({e[1] for e in o.path.effects if e[0].startswith("map-") and isinstance(e[1], str)})
+        if len(bases) > 1:
+            # a second table filled alongside the modules map (spellings kept for messages, a side index): that both have
+            # the same key set is a relation between two containers this evaluation does not track
+            raise AnalysisError("%s: %d tables are filled while the modules are indexed (%s); the agreement of their key sets is "
+                                "not tracked, so lookups in the side table are not decided" % (fi.where(), len(bases), ", ".join(bases)))
         sd = [e for e in o.path.effects if e[0] == "map-setdefault"]
         stores = [e for e in o.path.effects if e[0] == "map-store"]
         asked = [e for e in o.path.effects if e[0] in ("map-haskey", "map-getitem") and strip_norm(e[2]) == START_M]
@@ -759,8 +880,15 @@ def k15_map(ctx, pid: str):
                 out.append(("K15.reverse-complement", name, ok,
                             "two modules with reverse-complementary start overhangs must raise DuplicateModules: got %r" % (o,)))
             else:
-                ok = o.kind == "return" and isinstance(o.value, AMap)
-                adds = [(strip_norm(k), v) for k, v in (o.value.adds if ok else [])]
+                # the map itself, or the small object of the code base that keeps it (an index class around one dict)
+                res = o.value
+                if o.kind == "return" and res is None and built_by_ctor:
+                    res = I.kernel_args[0]
+                if o.kind == "return" and isinstance(res, AObj):
+                    held = [a for a in res.attrs.values() if isinstance(a, AMap)]
+                    res = held[0] if len(held) == 1 else res
+                ok = o.kind == "return" and isinstance(res, AMap)
+                adds = [(strip_norm(k), v) for k, v in (res.adds if ok else [])]
                 if scen == "absent":
                     ok = ok and any(k == START_M and isinstance(v, AObj) and v.name == "m" for k, v in adds)
                 out.append(("K15.result", name, ok, "without conflict the map (with the new module filed) must be returned: got %r" % (o,)))
@@ -876,6 +1004,11 @@ def k14_walk(ctx, pid: str):
         hooks["lazy_gens"] = {assigned_by.pop("<lazy>")}
     KAPPA = Term("kappa")
     P_LEN = Aff.sym("len:P")
+    from .roles import manager_phases, map_carrier
+    try:
+        carrier = map_carrier(p, manager_phases(p)["map"])
+    except AnalysisError:
+        carrier = None
 
     def map_value(m, key):
         return _entity(mod_cls, "M[%r]" % (key,))
@@ -897,11 +1030,21 @@ def k14_walk(ctx, pid: str):
                 elif isinstance(v, ARec):
                     I.path.cons.add(P_LEN)
                     f.env[nm] = ARec(v.circular, [Piece("P", ZERO, P_LEN)], Term("P"), deriv=("accumulator",))
+                elif isinstance(v, AObj) and isinstance(v.cls, ClassInfo) and isinstance(p.class_attr_def(v.cls, "__eq__")[1], FuncInfo) \
+                        and all(isinstance(a, Term) for a in v.attrs.values()):
+                    # the current overhang kept in a small value object (spelling + case-folded spelling): any overhang
+                    def rewrap(t):
+                        return Term(t.op, rewrap(t.args[0])) if (t.op in NORMALISERS and len(t.args) == 1) else KAPPA
+                    f.env[nm] = AObj(v.cls, {a: rewrap(t) for a, t in v.attrs.items()}, name=v.name)
                 elif nm in f.env:
                     f.env[nm] = Term("havoc:" + nm)
             for nm, v in f.env.items():
                 if isinstance(v, AMap):
                     v.adds, v.removes = [], []
+                if isinstance(v, AObj):
+                    for av in v.attrs.values():
+                        if isinstance(av, AMap):
+                            av.adds, av.removes = [], []
 
     hooks["havoc"] = havoc
 
@@ -910,6 +1053,9 @@ def k14_walk(ctx, pid: str):
         mods = ACollection("modules", lambda: _entity(mod_cls, "m"))
         M = AMap("M", make_value=map_value)
         I.the_map = M
+        if carrier is not None:
+            # the map phase hands on an object that keeps the dict: the walk receives such an object
+            return (build_manager(I, mgr, V, mods), AObj(carrier[0], {carrier[1]: M}, name="index")), {}
         return (build_manager(I, mgr, V, mods), M), {}
 
     START_V, END_V = Term("start", Term("V")), Term("end", Term("V"))
@@ -920,7 +1066,19 @@ def k14_walk(ctx, pid: str):
         entry = [e for e in o.path.effects if e[0] == "loop-entry"]
         if len(entry) != 1:
             return [("K14.entry", name, False, "the walk loop is not entered exactly once")]
-        env0 = entry[0][1]
+        def plain(env_):
+            # a small value object around the overhang counts as the overhang it stands for
+            out_ = {}
+            for k_, v_ in env_.items():
+                if isinstance(v_, AObj) and isinstance(v_.cls, ClassInfo) and isinstance(p.class_attr_def(v_.cls, "__eq__")[1], FuncInfo):
+                    try:
+                        v_ = I.key_of(v_)
+                    except AnalysisError:
+                        pass
+                out_[k_] = v_
+            return out_
+
+        env0 = plain(entry[0][1])
         k0 = [v for v in env0.values() if isinstance(v, Term) and strip_norm(v) == END_V]
         acc0 = [v for v in env0.values() if isinstance(v, ARec)]
         ok0 = bool(k0) and len(acc0) == 1 and not I.canon(acc0[0].pieces) and not acc0[0].circular
@@ -953,7 +1111,7 @@ def k14_walk(ctx, pid: str):
                 return out
             if o.kind != "step":
                 return out + [("K14.step", name, False, "a step with the module present ends with %r" % (o,))]
-            env = o.env
+            env = plain(o.env)
             acc = [v for v in env.values() if isinstance(v, ARec)]
             okacc = len(acc) == 1 and I.same_pieces(acc[0].pieces, [Piece("P", ZERO, P_LEN), Piece("F:" + mname, ZERO, Aff.sym("len:F:" + mname))])
             out.append(("K14.step-append", name, okacc,
@@ -1031,7 +1189,13 @@ def k16_assemble(ctx, pid: str):
 
     def unbound(h, f):
         # module-level functions receive the record first; methods receive self first: present both to the stub alike
-        if f.owner is not None and f.kind == "method":
+        if f.owner is not None and f.kind == "method" and f.owner is not mgr and not p.is_subclass(mgr, f.owner):
+            # a method of a small object wrapped around one record: the record is what that object keeps
+            def of_wrapper(I, f_, args, kwargs):
+                kept = [v for v in getattr(args[0], "attrs", {}).values() if isinstance(v, ARec)] if args else []
+                return h(I, f_, [None] + kept[:1] + list(args[1:]), kwargs)
+            return of_wrapper
+        if f.owner is not None and f.kind in ("method", "classmethod"):
             return h
         return lambda I, f_, args, kwargs: h(I, f_, [None] + list(args), kwargs)
 
